@@ -202,7 +202,7 @@ def harmonic_forces_for_file(read_cell, ideal_cell_model, fc_model, length_unit)
 SUBTRACTS_DRIFT = sorted(set(UNITS) - {"vasp"})
 
 
-def write_force_output(calc, filename, read_cell, forces_eVA, energy=-10.0, later_steps=None, drift=None):
+def write_force_output(calc, filename, read_cell, forces_eVA, energy=-10.0, later_steps=None, drift=None, earlier_blocks=None):
     """Write a calculator output file carrying `forces_eVA` (file atom order) in the calculator's format and native unit.
     drift: constant force (eV/angstrom) added to every atom, as the residual net force of a real calculation."""
     F = np.array(forces_eVA, dtype=float)
@@ -329,11 +329,25 @@ def write_force_output(calc, filename, read_cell, forces_eVA, energy=-10.0, late
         lines.append(" RESULTANT FORCE   0 0 0")
     else:
         raise ValueError(calc)
+    text = "\n".join(lines) + "\n"
+    if earlier_blocks and calc in MULTIBLOCK:
+        # a job that printed its forces more than once (earlier ionic / SCF steps): phonopy documents that the LAST set counts
+        pre = ""
+        for k, Fe in enumerate(earlier_blocks):
+            tmp = filename + ".earlier%d" % k
+            write_force_output(calc, tmp, read_cell, Fe, energy=energy + 1.0 + k, drift=drift)
+            pre += open(tmp).read()
+            os.remove(tmp)
+        text = pre + text
     with open(filename, "w") as w:
-        w.write("\n".join(lines) + "\n")
+        w.write(text)
 
 
-def truncate_in_force_block(calc, filename):
+# readers built on file_IO.iter_collect_forces ("the last set of forces in the file"); siesta's .FA file has one block by construction
+MULTIBLOCK = ["qe", "cp2k", "crystal", "pwmat"]
+
+
+def truncate_in_force_block(calc, filename, midline=False, frac=0.5):
     """A job that crashed while printing its forces: cut the file in the middle of the force block."""
     target = os.path.join(filename, "gradient") if calc == "turbomole" else filename
     text = open(target).read()
@@ -345,8 +359,11 @@ def truncate_in_force_block(calc, filename):
     if marker is not None:
         for i, ln in enumerate(lines):
             if marker in ln:
-                start = i
-                break
+                start = i  # the LAST force block is the one being printed when the job dies
     cut = start + max(2, (len(lines) - start) // 2)
     with open(target, "w") as w:
-        w.write("\n".join(lines[:cut]) + "\n")
+        if midline and cut < len(lines) and len(lines[cut].strip()) > 6:
+            # killed in the middle of a line: the last line is incomplete and has no newline
+            w.write("\n".join(lines[:cut]) + "\n" + lines[cut][: max(3, int(len(lines[cut]) * frac))])
+        else:
+            w.write("\n".join(lines[:cut]) + "\n")
